@@ -47,12 +47,12 @@ Proof. reflexivity. Qed.
 (* aligning to 1 is the identity on both backends *)
 Lemma ralign_1 rk i p : ralign rk 1 i p = Ok (tt, i, p).
 Proof.
-  unfold ralign. change (1 =? 0) with false. cbv iota. rewrite pad_align_to_1.
+  rewrite ralign_eq; cbv zeta. change (1 =? 0) with false. cbv iota. rewrite pad_align_to_1.
   destruct rk as [base|].
   - destruct (N.leb_spec 0 (nlen i)) as [_|Hc]; [|lia].
     rewrite N.mod_1_r. change (0 =? 0) with true. cbv iota.
     rewrite ndrop_0, N.add_0_r. reflexivity.
-  - unfold read_exact. destruct (N.leb_spec 0 (nlen i)) as [_|Hc]; [|lia].
+  - rewrite read_exact_eq. destruct (N.leb_spec 0 (nlen i)) as [_|Hc]; [|lia].
     rewrite ndrop_0, N.add_0_r. reflexivity.
 Qed.
 
